@@ -2,7 +2,10 @@ import Pfst.WalkLemmas
 import Pfst.NavLemmas
 import Pfst.SynOrderLemmas
 import Pfst.Props.C14Tables
+import Pfst.Props.C14TablesB
+import Pfst.Props.C14Covers
 import Pfst.Props.C14Static
+import Pfst.Props.C14StaticB
 
 /-!
 # C14 — traversal visits every node once, in source order, consistently across APIs
@@ -178,6 +181,29 @@ theorem merge_sorted (args kws : List PNode) (ha : Sorted args) (hk : Sorted kws
     (hsep : ∀ last, args.getLast? = some last → last.star = false → ∀ a ∈ args, ∀ k ∈ kws, posLe a k) :
     Sorted (mergeArgsKws args kws) ∧ (mergeArgsKws args kws).Perm (args ++ kws) :=
   Pfst.SynOrder.merge_sorted args kws ha hk hsep
+
+/-! ## the extracted tables (halves A and B are checked in separate modules) -/
+
+/-- **NEXT is exactly "successor", PREV exactly "predecessor" in the syntax-ordered child list**, for every tabulated
+parent shape (every node class; list lengths 0..3, optional fields present/absent, None entries in `Dict.keys` and
+`arguments.kw_defaults`, every valid interleaving of ≤3 positional/starred and ≤3 keyword arguments of Call/ClassDef):
+`NEXT_FUNCS[cls, None]` answers the first element of `syntax_ordered_children`, `NEXT_FUNCS[cls, field](parent, idx)` the
+element after the child at (field, idx), None after the last; `PREV_FUNCS` the mirror image. -/
+theorem table_consistent :
+    Pfst.TableCheck.allOk Pfst.Gen.SyntaxOrder.shapesEncA Pfst.Gen.NextPrev.tablesEncA = true
+    ∧ Pfst.TableCheck.allOk Pfst.Gen.SyntaxOrder.shapesEncB Pfst.Gen.NextPrev.tablesEncB = true :=
+  ⟨table_consistent_A, table_consistent_B⟩
+
+/-- `syntax_ordered_children` returns every AST child of the parent exactly once (nothing dropped, nothing twice), for
+every tabulated parent shape.  The children are the `ast.AST` instances in the fields CPython's class docstring declares. -/
+theorem order_covers : Pfst.Gen.SyntaxOrder.shapesEnc.all Pfst.TableCheck.coversOk = true := by
+  simp only [Pfst.Gen.SyntaxOrder.shapesEnc, List.all_append, order_covers_A, order_covers_B, Bool.and_self]
+
+/-- For every class listed in `Gen.SyntaxOrder.fieldOrder` the child list is, for every tabulated shape, the
+concatenation of the field blocks in that one fixed order of fields (list fields in index order). -/
+theorem static_field_order :
+    Pfst.Gen.SyntaxOrder.shapesEnc.all (Pfst.TableCheck.staticOk Pfst.Gen.SyntaxOrder.fieldOrder) = true := by
+  simp only [Pfst.Gen.SyntaxOrder.shapesEnc, List.all_append, static_field_order_A, static_field_order_B, Bool.and_self]
 
 /-! ## non-vacuity -/
 
